@@ -4,9 +4,9 @@
 (* (C10), drv_kernels.cpp (C08, C09) and drv_matop.cpp (C11).  Every row is *)
 (* one case executed on the real classes; the specification judges it.      *)
 (***************************************************************************)
-EXTENDS Naturals, Integers, Sequences, FiniteSets, TLC, Json, IOUtils, BKLDLT, QRKernels
+EXTENDS Naturals, Integers, Sequences, FiniteSets, TLC, Json, IOUtils, BKLDLT, QRKernels, MatOp
 
-VARIABLES l, mon, cov
+VARIABLES l, mon, cov, seen
 Tr == ndJsonDeserialize(IOEnv.TRACE)
 OutFile == IOEnv.OUT
 CovKeys == {"rows", "bk_exact", "bk_exact_nonsingular", "bk_exact_singular", "bk_singular_reported", "bk_meas", "bk_meas_judged", "bk_meas_illcond",
@@ -77,12 +77,40 @@ EigHits(e) ==
          \cup (IF e.cls = "schur" THEN If(e.quasi = 1, "QuasiTriangular") \cup If(e.std2 = 1, "BlocksStandardised") ELSE {})
          \cup (IF e.cls = "hesseig" THEN If(e.conv = 1, "ExactConjugatePairing") ELSE {})
 
-TrInit == l = 1 /\ mon = {} /\ cov = [key \in CovKeys |-> 0]
+\* ---------------------------------------------------------------- C11
+SixLetters(c) == <<SubSeq(c, 1, 1), SubSeq(c, 2, 2), SubSeq(c, 3, 3), SubSeq(c, 4, 4), SubSeq(c, 5, 5), SubSeq(c, 6, 6)>>
+ProdHits(e) ==
+    LET want == MatVec(e.n, e.a, e.x) IN
+    If(e.nonint = 0 /\ \A i \in 1 .. e.n : e.y[i] = want[i], "ProductExact") \cup If(e.rows = e.n /\ e.cols = e.n, "RowsCols")
+HProdHits(e) ==
+    LET re == MatVec(e.n, e.a, e.x) im == MatVec(e.n, e.k, e.x) IN
+    If(e.nonint = 0 /\ \A i \in 1 .. e.n : e.yr[i] = re[i] /\ e.yi[i] = im[i], "ProductExact")
+SolveHits(e) ==
+    If(e.fin = 1, "SolveFinite") \cup If(SolveOK(e.ty, e.qn, e.qres, e.qscale, e.qcond), "SolveAccurate")
+    \cup If(e.dg0 = e.dg1, "ReadsOnlyItsTriangle")
+Key(e) ==
+    CASE e.e = "Prod" -> <<"P", <<e.w, e.uplo, e.rm, e.si, e.ty>>>>
+      [] e.e = "HProd" -> <<"H", <<e.w, e.uplo, e.rm>>>>
+      [] e.e = "Solve" /\ e.w = "SymShiftInvert" -> <<"I", e.cx>>
+      [] e.e = "Solve" /\ e.op = "composite" -> <<"C", e.w>>
+      [] OTHER -> <<"S", <<e.w, e.uplo, e.rm, e.si, e.ty>>>>
+\* completeness of the finite configuration space: evaluated when the table ends
+Expected ==
+    {<<"P", c>> : c \in ProdConfigs} \cup {<<"H", c>> : c \in HermConfigs} \cup {<<"S", c>> : c \in SolveConfigs}
+    \cup {<<"C", c>> : c \in Composites}
+SSISeen == {k[2] : k \in {x \in seen : x[1] = "I"}}
+EndMatOpHits == If(Expected \subseteq seen, "ConfigSpaceComplete") \cup If(Cardinality(SSISeen) = 64, "ShiftInvert64Combinations")
+
+TrInit == l = 1 /\ mon = {} /\ cov = [key \in CovKeys |-> 0] /\ seen = {}
 TrStep ==
     /\ l <= Len(Tr)
     /\ LET e == Tr[l] IN
         /\ mon' = AddHits(mon, CASE e.e = "Bk" -> BkHits(e)
                                  [] e.e = "BkProto" -> ProtoHits(e)
+                                 [] e.e = "Prod" -> ProdHits(e)
+                                 [] e.e = "HProd" -> HProdHits(e)
+                                 [] e.e = "Solve" -> SolveHits(e)
+                                 [] e.e = "EndMatOp" -> EndMatOpHits
                                  [] e.e = "Qr" -> QrHits(e)
                                  [] e.e = "Eig" -> EigHits(e)
                                  [] e.e \in {"Reset", "EndBk", "EndKernels"} -> {}
@@ -97,15 +125,18 @@ TrStep ==
                                         "bk_meas_illcond", IF e.qcond = QNAN \/ e.qcond > -QEPS12(e.ty) THEN 1 ELSE 0),
                                    "bk_n1", IF e.n = 1 THEN 1 ELSE 0), "bk_complex", IF e.ty > 10 THEN 1 ELSE 0)
                     [] e.e = "BkProto" -> Bump(c0, "bk_proto", 1)
+                    [] e.e \in {"Prod", "HProd", "Solve"} -> Bump(c0, "matop_rows", 1)
+                    [] e.e = "EndMatOp" -> Bump(c0, "matop_configs", Cardinality(seen))
                     [] e.e = "Qr" -> Bump(Bump(c0, "qr_rows", 1), "qr_exact", IF ExactDomain(e.cls, e.kind, e.sk) THEN 1 ELSE 0)
                     [] e.e = "Eig" -> Bump(Bump(c0, "eig_rows", 1), "eig_exact", IF e.thr = 0 /\ e.cls = "hesseig" THEN 1 ELSE 0)
                     [] OTHER -> c0
+        /\ seen' = IF e.e \in {"Prod", "HProd", "Solve"} THEN seen \cup {Key(e)} ELSE seen
     /\ l' = l + 1
 TrFinish ==
     /\ l = Len(Tr) + 1
     /\ JsonSerialize(OutFile, [lines |-> Len(Tr), hits |-> mon, cov |-> cov])
     /\ l' = l + 1
-    /\ UNCHANGED <<mon, cov>>
+    /\ UNCHANGED <<mon, cov, seen>>
 TrNext == TrStep \/ TrFinish
-TraceSpec == TrInit /\ [][TrNext]_<<l, mon, cov>>
+TraceSpec == TrInit /\ [][TrNext]_<<l, mon, cov, seen>>
 =============================================================================
